@@ -3,6 +3,7 @@ package props
 // C06 — target death and table recycling never corrupt or leak entities.
 
 import (
+	"strings"
 	"testing"
 
 	"verifharness/core"
@@ -30,6 +31,9 @@ func TestC06(t *testing.T) {
 			Verify:          core.FullVerify,
 			CheckRelQueries: true,
 			ScanRegistered:  true,
+			// with a listener installed (half of the cases) the events are judged too: "keeps
+			// reporting the dead handle" also holds for the OldTarget an event carries
+			CheckEvents: true,
 			// what the statement promises about OTHER entities is owned at the moment a target
 			// dies, and whenever entities are put under a target after some table was retired
 			OwnedIf: func(s *core.Sim, f *core.Finding) bool {
@@ -38,6 +42,17 @@ func TestC06(t *testing.T) {
 				case core.CatCacheDiff, core.CatPanicCached, core.CatBatchDiff:
 					// registered filters and batch calls: owned only once a table was retired
 					return len(s.DeadTargets) > 0
+				case core.CatEvents:
+					// events about entities whose (old) target is dead
+					if len(s.DeadTargets) == 0 {
+						return false
+					}
+					for _, k := range []string{"Target", "type bits", "no event for", "nothing changed"} {
+						if strings.Contains(f.Msg, k) {
+							return true
+						}
+					}
+					return false
 				default:
 					return false
 				}
@@ -57,7 +72,7 @@ func TestC06(t *testing.T) {
 			g.TargetRemovalPct = 60
 			g.DeadFilterTargets = true
 		},
-		Rule: "histories biased to: create parents, attach children (several relation nodes), remove parents while their tables are empty / non-empty / become empty later (by removal, move, batch operation, Reset), self-targets, parents removed in the same RemoveEntities call as their children, then reuse of the same component sets with new targets; oracle after every op: removals never panic, children stay alive with identical components and values and still report the dead handle, Query(RelationFilter(All(r),t)) for every live and every dead target equals the model (nothing shows up under a foreign target), rows of reused tables read zero, node/free-list/target-map invariants through the hook; non-trivial = a retired table was reused (hook: retired-table count dropped) after a target died; without hooks: a target died and a later op put entities under another target",
+		Rule: "histories biased to: create parents, attach children (several relation nodes), remove parents while their tables are empty / non-empty / become empty later (by removal, move, batch operation, Reset), self-targets, parents removed in the same RemoveEntities call as their children, then reuse of the same component sets with new targets; oracle after every op: removals never panic, children stay alive with identical components and values and still report the dead handle (also as OldTarget of the events a listener receives, in the half of the cases that install one), Query(RelationFilter(All(r),t)) for every live and every dead target equals the model (nothing shows up under a foreign target), rows of reused tables read zero, node/free-list/target-map invariants through the hook; non-trivial = a retired table was reused (hook: retired-table count dropped) after a target died; without hooks: a target died and a later op put entities under another target",
 		Observe: func(tr *tracker, op *core.Op) {
 			_, retired, _ := core.TableCounts(tr.sim.B.W)
 			prev := tr.counters["retired"]
